@@ -606,9 +606,16 @@ class QubitCircuit:
 
         for gate in self.gates:
             if gate.name in ("X", "Y", "Z"):
-                qc_temp.gates.append(Gate("GLOBALPHASE", arg_value=np.pi / 2))
+                qc_temp.gates.append(
+                    Gate(
+                        "GLOBALPHASE", arg_value=np.pi / 2, **_condition(gate)
+                    )
+                )
                 gate = Gate(
-                    "R" + gate.name, targets=gate.targets, arg_value=np.pi
+                    "R" + gate.name,
+                    targets=gate.targets,
+                    arg_value=np.pi,
+                    **_condition(gate),
                 )
             try:
                 _resolve_to_universal(gate, temp_resolved, basis_1q, basis_2q)
@@ -641,6 +648,7 @@ class QubitCircuit:
                             None,
                             arg_value=-half_pi,
                             arg_label=r"-\pi/2",
+                            **_condition(gate),
                         )
                     )
                     qc_temp.gates.append(
@@ -650,6 +658,7 @@ class QubitCircuit:
                             None,
                             gate.arg_value,
                             arg_label=gate.arg_label,
+                            **_condition(gate),
                         )
                     )
                     qc_temp.gates.append(
@@ -659,6 +668,7 @@ class QubitCircuit:
                             None,
                             arg_value=half_pi,
                             arg_label=r"\pi/2",
+                            **_condition(gate),
                         )
                     )
                 elif gate.name == "RY" and "RY" not in basis_1q:
@@ -669,6 +679,7 @@ class QubitCircuit:
                             None,
                             arg_value=-half_pi,
                             arg_label=r"-\pi/2",
+                            **_condition(gate),
                         )
                     )
                     qc_temp.gates.append(
@@ -678,6 +689,7 @@ class QubitCircuit:
                             None,
                             gate.arg_value,
                             arg_label=gate.arg_label,
+                            **_condition(gate),
                         )
                     )
                     qc_temp.gates.append(
@@ -687,6 +699,7 @@ class QubitCircuit:
                             None,
                             arg_value=half_pi,
                             arg_label=r"\pi/2",
+                            **_condition(gate),
                         )
                     )
                 elif gate.name == "RZ" and "RZ" not in basis_1q:
@@ -697,6 +710,7 @@ class QubitCircuit:
                             None,
                             arg_value=-half_pi,
                             arg_label=r"-\pi/2",
+                            **_condition(gate),
                         )
                     )
                     qc_temp.gates.append(
@@ -706,6 +720,7 @@ class QubitCircuit:
                             None,
                             gate.arg_value,
                             arg_label=gate.arg_label,
+                            **_condition(gate),
                         )
                     )
                     qc_temp.gates.append(
@@ -715,6 +730,7 @@ class QubitCircuit:
                             None,
                             arg_value=half_pi,
                             arg_label=r"\pi/2",
+                            **_condition(gate),
                         )
                     )
                 else:
